@@ -121,10 +121,130 @@ fn iff_cases() -> Vec<IffCase> {
     out
 }
 
+/// Metamorphic: an operand that is untracked when it is used is a CONSTANT. In the variant every such operand is
+/// replaced by a brand-new plain array with the same values (which shares no state with anything); values and
+/// gradients (presence and bits) of every array of the base history must be identical in both runs.
+#[derive(Clone, Debug, Serialize, Deserialize)]
+pub struct ConstCase {
+    pub base: History,
+}
+
+/// the variant history and, per base handle, the slot that holds it in the variant
+pub fn untracked_as_constants(base: &History) -> Option<(History, Vec<usize>, usize)> {
+    let mut m = refmodel::model::RefState::new(0);
+    let mut out = vec![];
+    let mut map: Vec<usize> = vec![];
+    let mut nslots = 0usize;
+    let mut replaced = 0;
+    for s in &base.steps {
+        let before = m.handles.len();
+        match s {
+            // sum(0) returns a handle of the very same array, so its operand is not a constant of a new result
+            Step::Apply(a) if !a.op.consumes_operand() && !matches!(a.op, OpKind::Sum(0)) => {
+                let mut args = vec![];
+                let mut temps = vec![];
+                for &x in &a.args {
+                    if !m.handle(x).tracked {
+                        out.push(Step::Copy { h: map[x] });
+                        temps.push(nslots);
+                        args.push(nslots);
+                        nslots += 1;
+                        replaced += 1;
+                    } else {
+                        args.push(map[x]);
+                    }
+                }
+                out.push(Step::Apply(ApplySpec { op: a.op.clone(), args }));
+                map.push(nslots);
+                nslots += 1;
+                for t in temps {
+                    out.push(Step::Drop { h: t });
+                }
+            }
+            Step::Leaf { .. } => {
+                out.push(s.clone());
+                map.push(nslots);
+                nslots += 1;
+            }
+            Step::Apply(a) => {
+                out.push(Step::Apply(ApplySpec { op: a.op.clone(), args: a.args.iter().map(|x| map[*x]).collect() }));
+                map.push(nslots);
+                nslots += 1;
+            }
+            Step::Clone { h } => {
+                out.push(Step::Clone { h: map[*h] });
+                map.push(nslots);
+                nslots += 1;
+            }
+            Step::Drop { h } => out.push(Step::Drop { h: map[*h] }),
+            Step::Flag { h, how } => out.push(Step::Flag { h: map[*h], how: *how }),
+            Step::Backward { h, seed } => out.push(Step::Backward { h: map[*h], seed: seed.clone() }),
+            Step::ClearGrad { h, via_replace } => out.push(Step::ClearGrad { h: map[*h], via_replace: *via_replace }),
+            // other step kinds are not generated for this campaign
+            _ => return None,
+        }
+        m.step(s).ok()?;
+        if m.handles.len() != before + matches!(s, Step::Leaf { .. } | Step::Apply(_) | Step::Clone { .. }) as usize {
+            return None;
+        }
+    }
+    Some((History { steps: out }, map, replaced))
+}
+
+impl CaseKind for ConstCase {
+    const KIND: &'static str = "c09-const";
+    fn size(&self) -> usize {
+        self.base.steps.len() * 16
+    }
+    fn sample(&self) -> Value {
+        hist_sample(&self.base)
+    }
+    fn run(&self) -> Outcome {
+        let key = hist_key(&self.base);
+        let Some((variant, map, replaced)) = untracked_as_constants(&self.base) else { return Outcome::discard("history uses step kinds outside this campaign") };
+        let mut p = Exec::new();
+        for s in &self.base.steps {
+            if p.step(s).is_err() {
+                return Outcome::discard("the base history panicked");
+            }
+        }
+        let mut q = Exec::new();
+        for s in &variant.steps {
+            if let Err(e) = q.step(s) {
+                if is_discard(&e) {
+                    return Outcome::discard(&e);
+                }
+                return Outcome::fail("variant-panicked", "variant-panicked".into(), format!("with every untracked operand replaced by a fresh constant the history panicked although the original ran: {}\nvariant: {}", e, hist_sample(&variant)), key, vec![]);
+            }
+        }
+        let obs = |ex: &Exec, slot: usize| ex.slots.get(slot).and_then(|x| x.as_ref()).map(|a| (a.dimensions().to_vec(), a.values().iter().map(|v| (*v as f64).to_bits()).collect::<Vec<u64>>(), a.gradient().as_ref().map(|g| (g.dimensions().to_vec(), g.values().iter().map(|v| (*v as f64).to_bits()).collect::<Vec<u64>>()))));
+        let show = |o: &Option<(Vec<usize>, Vec<u64>)>| o.as_ref().map(|(d, v)| (d.clone(), v.iter().take(8).map(|b| f64::from_bits(*b)).collect::<Vec<_>>()));
+        let mut compared = 0;
+        for (h, &slot) in map.iter().enumerate() {
+            let (Some(a), Some(b)) = (obs(&p, h), obs(&q, slot)) else { continue };
+            compared += 1;
+            if a.0 != b.0 || a.1 != b.1 {
+                return Outcome::fail("value-differs", "value-differs".into(), format!("base handle {}: values differ when untracked operands are replaced by fresh constants\nvariant: {}", h, hist_sample(&variant)), key, vec![]);
+            }
+            if a.2 != b.2 {
+                return Outcome::fail(
+                    "untracked-operand-not-constant",
+                    "untracked-operand-not-constant".into(),
+                    format!("base handle {}: gradient {:?}, but {:?} when every operand that is untracked at its use is replaced by a brand-new array with the same values: something flowed into or through an untracked operand\nbase: {}\nvariant: {}", h, show(&a.2), show(&b.2), hist_sample(&self.base), hist_sample(&variant)),
+                    key,
+                    vec![],
+                );
+            }
+        }
+        Outcome::pass(replaced > 0 && compared > 0 && self.base.n_backward() >= 1, key, vec![format!("replaced-operands:{}", replaced.min(6)), format!("passes:{}", self.base.n_backward().min(4))])
+    }
+}
+
 #[derive(Clone, Debug, Serialize, Deserialize)]
 pub enum Case9 {
     H(HistCase),
     I(IffCase),
+    K(ConstCase),
 }
 impl CaseKind for Case9 {
     const KIND: &'static str = "c09";
@@ -132,18 +252,21 @@ impl CaseKind for Case9 {
         match self {
             Case9::H(c) => c.size(),
             Case9::I(c) => c.size(),
+            Case9::K(c) => c.size(),
         }
     }
     fn sample(&self) -> Value {
         match self {
             Case9::H(c) => c.sample(),
             Case9::I(c) => c.sample(),
+            Case9::K(c) => c.sample(),
         }
     }
     fn run(&self) -> Outcome {
         match self {
             Case9::H(c) => c.run(),
             Case9::I(c) => c.run(),
+            Case9::K(c) => c.run(),
         }
     }
 }
@@ -164,6 +287,7 @@ pub fn dispatch(kind: &str, v: &Value) -> Option<Outcome> {
         "c09" => serde_json::from_value::<Case9>(v.clone()).ok().map(|c| c.run()),
         "history" => serde_json::from_value::<HistCase>(v.clone()).ok().map(|c| c.run()),
         "c09-iff" => serde_json::from_value::<IffCase>(v.clone()).ok().map(|c| c.run()),
+        "c09-const" => serde_json::from_value::<ConstCase>(v.clone()).ok().map(|c| c.run()),
         // the D11 regression is a single-operation gradient case
         "grad-op" => serde_json::from_value::<GradCase>(v.clone()).ok().map(|c| c.run()),
         _ => None,
@@ -180,6 +304,17 @@ pub fn campaigns(ctx: &Ctx) -> Stats {
         let cfg = cfg_for(t, exact);
         st.merge(ctx.run_prop(name, total / 2, move || recipe_strategy(len), move |r| Some(Case9::H(HistCase { oracle: "c09".into(), hist: elaborate(&cfg, r) }))));
     }
+    // untracked operand == constant (metamorphic)
+    for (name, exact) in [("untracked-operands-as-constants-exact", true), ("untracked-operands-as-constants-mixed", false)] {
+        use Kind::*;
+        let mut cfg = GenCfg::programs(exact);
+        cfg.kinds = vec![(Binary, 26), (Flag, 16), (Backward, 14), (Unary, 9), (Matmul, 9), (Leaf, 8), (CloneH, 6), (SumReshape, 5), (ClearGrad, 3), (Custom, 3), (DropH, 2), (Conv, 2)];
+        cfg.max_steps = t.pick(22, 60);
+        cfg.max_elems = t.pick(32, 100);
+        cfg.tracked_pct = 50;
+        cfg.flag_results = true;
+        st.merge(ctx.run_prop(name, total / 2, move || recipe_strategy(len), move |r| Some(Case9::K(ConstCase { base: elaborate(&cfg, r) }))));
+    }
     st
 }
 
@@ -192,7 +327,7 @@ pub fn run(ctx: &Ctx) -> i32 {
     finish(
         ctx,
         st,
-        "cases = (1) single operations over every tracked/untracked assignment of their operands (iff rule, and no retained reference when all operands are untracked); (2) generated histories with tracked()/untracked() and start/stop_tracking on leaves, results and clones, before and after use, with repeated passes, gradient reads (fetched gradients are used as operands again) and clears. Model: per-handle flags copied on clone; an operand contributes iff its handle was tracked when the operation was built. Oracle after every step: every live handle's flag equals the model's (so a pass leaves all flags as it found them and a flag set on a clone never changes the original), results of built-in operations are tracked iff an operand was, fetched gradients are untracked, and after a pass no array holds a gradient unless it is the root or was reached through operands that were tracked when used. Non-trivial = a history with at least one pass, or any iff case; distinct by structure.",
+        "cases = (0) metamorphic histories in which every operand that is untracked at its use is replaced by a brand-new plain array with the same values: all values and gradients must be bitwise identical (nothing may flow into or through an untracked operand, not even hidden pending state that a later pass would pick up); (1) single operations over every tracked/untracked assignment of their operands (iff rule, and no retained reference when all operands are untracked); (2) generated histories with tracked()/untracked() and start/stop_tracking on leaves, results and clones, before and after use, with repeated passes, gradient reads (fetched gradients are used as operands again) and clears. Model: per-handle flags copied on clone; an operand contributes iff its handle was tracked when the operation was built. Oracle after every step: every live handle's flag equals the model's (so a pass leaves all flags as it found them and a flag set on a clone never changes the original), results of built-in operations are tracked iff an operand was, fetched gradients are untracked, and after a pass no array holds a gradient unless it is the root or was reached through operands that were tracked when used. Non-trivial = a history with at least one pass, or any iff case; distinct by structure.",
         &["gradient VALUES are not judged here (C01/C02); only presence where none may be stored", "Array::op results are excluded from the iff rule: the caller decides by passing a derivative", "an operation result used through handles with mixed keep-gradient flags may or may not store its own gradient: not judged"],
         json!({}),
     )
